@@ -429,6 +429,59 @@ def special_pairs(rng, n):
     return out
 
 
+# ---------------------------------------------------------------------------
+# multi-module runs through the command-line path: per-module overrides covering a strict subset of the
+# modules must leave every uncovered module's diagnostics alone — also the diagnostics produced by the
+# run-wide final checks (attribute_is_never_set comes from the ClassAttributeChecker after all files)
+
+MULTI_BLOCKS = [
+    "class Capy{k}:\n    def __init__(self) -> None:\n        self.size = 1\n\n    def grow(self) -> int:\n        return self.sise{k}\n",
+    "class Kero{k}:\n    name = 'k'\n\n    def m(self):\n        return self.nmae{k}, undefined_{k}\n",
+    "def show{k}() -> None:\n    print(undefined_thing{k}, 1 + 'a')\n",
+    "def call{k}(x: int) -> None:\n    call{k}('s')\n    call{k}(1, 2)\n",
+    "def dup{k}():\n    return {{1: 1, 1: 2}}, undefined_d{k}\n",
+    "def quiet{k}():\n    return 1\n",
+]
+MULTI_CODES = ["attribute_is_never_set", "undefined_name", "undefined_attribute", "unsupported_operation", "incompatible_argument", "incompatible_call", "duplicate_dict_key"]
+
+
+def gen_multi_case(rng, ci):
+    """-> (modules {name: text}, list of (description, toml, settings_off, covered modules, codes))"""
+    tag = f"c11m{ci}_{rng.randrange(10**6)}"
+    names = [f"{tag}_a", f"{tag}_b", f"{tag}_ab"][: rng.choice([2, 3, 3])]
+    modules = {}
+    for n in names:
+        blocks = rng.sample(MULTI_BLOCKS, rng.choice([2, 3, 4]))
+        if rng.random() < 0.8 and MULTI_BLOCKS[0] not in blocks and MULTI_BLOCKS[1] not in blocks:
+            blocks[0] = MULTI_BLOCKS[rng.choice([0, 1])]
+        modules[n] = "\n\n".join(b.format(k=i) for i, b in enumerate(blocks))
+    return names, modules
+
+
+def multi_toml(overrides, top_off=()):
+    lines = ["[tool.pyanalyze]"] + [f"{c} = false" for c in top_off]
+    for mod, codes in overrides:
+        lines += ["", "[[tool.pyanalyze.overrides]]", f'module = "{mod}"'] + [f"{c} = false" for c in codes]
+    return "\n".join(lines) + "\n"
+
+
+def multi_configs(rng, names, codes):
+    """Configurations whose expected effect is: remove code c from exactly the covered modules."""
+    out = []
+    a = names[0]
+    for c in codes:
+        out.append((f"override {a} only", multi_toml([(a, [c])]), [], [a], [c]))
+    c2 = codes[: 2] if len(codes) > 1 else codes
+    out.append(("override first module, several codes", multi_toml([(a, c2)]), [], [a], c2))
+    if len(names) > 2:
+        out.append(("two override sections", multi_toml([(names[0], [codes[0]]), (names[1], [codes[0]])]), [], names[:2], [codes[0]]))
+    out.append(("override for an unrelated module name", multi_toml([(a + "_zz", codes[:1]), ("zz_" + a, codes[:1])]), [], [], codes[:1]))
+    for c in codes[:3]:
+        out.append(("top level", multi_toml([], [c]), [], list(names), [c]))
+        out.append(("command line", multi_toml([]), [c], list(names), [c]))
+    return out
+
+
 GUARDS = {"C11-ignore-text-in-string": guard_text_outside_comment, "C11-splitlines-vs-tokenizer": guard_splitlines_mismatch}
 
 
@@ -651,6 +704,8 @@ def run(tier: str, replay: str | None = None):
     specials = []
     if replay and "special" in json.loads(Path(replay).read_text())["input"]:
         specials = [tuple(json.loads(Path(replay).read_text())["input"]["special"])]
+    elif replay and "multi" in json.loads(Path(replay).read_text())["input"]:
+        pass  # handled by the multi-module stream below
     elif replay:
         r = json.loads(Path(replay).read_text())
         c = r["input"]
@@ -658,6 +713,8 @@ def run(tier: str, replay: str | None = None):
         variants.append({"base": b, "cfg": c["cfg"], "edits": [tuple(e) for e in c["edits"]], "baseline_cfg": c.get("baseline_cfg")})
     else:
         for c in corpus:
+            if "multi" in c:
+                continue  # multi-module corpus entries are run by the multi-module stream
             b = add_base(c["base_lines"], c.get("tags") or ["to"] * len(c["base_lines"]))
             variants.append({"base": b, "cfg": c["cfg"], "edits": [tuple(e) for e in c["edits"]], "baseline_cfg": c.get("baseline_cfg")})
         n_prog = 18 if tier == "quick" else 80
@@ -906,6 +963,50 @@ def run(tier: str, replay: str | None = None):
                             "input": {"special": [fid, vt, nt], "cfg": base_cfg}, "observed": rv["out"], "expected": rn["out"],
                             "guard_holds": bool(GUARDS[fid](vt)), "model_agrees_with_impl": special_model_agrees.get(si)})
 
+    # multi-module runs through the CLI path
+    multi_cases = []
+    if replay and "multi" in json.loads(Path(replay).read_text())["input"]:
+        mi = json.loads(Path(replay).read_text())["input"]["multi"]
+        multi_cases.append((mi["names"], mi["modules"], [tuple(mi["config"])]))
+    elif not replay:
+        for c in corpus:
+            if "multi" in c:
+                multi_cases.append((c["multi"]["names"], c["multi"]["modules"], [tuple(c["multi"]["config"])]))
+        for ci in range(3 if tier == "quick" else 14):
+            names_m, modules_m = gen_multi_case(rng, ci)
+            multi_cases.append((names_m, modules_m, None))
+    multi_jobs = [{"modules": m, "toml": multi_toml([])} for _, m, _ in multi_cases]
+    multi_base = lines_impl.pool_map_fn(lines_impl.run_multi, multi_jobs) if multi_jobs else []
+    mjobs, mmeta = [], []
+    for (names_m, modules_m, cfgs), b in zip(multi_cases, multi_base):
+        if b["error"]:
+            harness_problems.append("multi-module baseline: " + b["error"][:300])
+            continue
+        present_m = sorted({d[1] for d in b["out"] if d[1]})
+        codes_m = [c for c in MULTI_CODES if c in present_m] + [c for c in present_m if c not in MULTI_CODES]
+        if "attribute_is_never_set" not in codes_m:
+            codes_m.append("attribute_is_never_set")  # disabling a code nobody reports must change nothing either
+        for cfg_m in (cfgs or multi_configs(rng, names_m, codes_m)):
+            mjobs.append({"modules": modules_m, "toml": cfg_m[1], "settings_off": list(cfg_m[2])})
+            mmeta.append((names_m, modules_m, cfg_m, b["out"]))
+    mres = lines_impl.pool_map_fn(lines_impl.run_multi, mjobs) if mjobs else []
+    n_multi = 0
+    for (names_m, modules_m, cfg_m, base_out), r in zip(mmeta, mres):
+        if r["error"]:
+            harness_problems.append("multi-module run: " + r["error"][:300])
+            continue
+        n_multi += 1
+        n_oracle += 1
+        desc, toml_m, soff, covered, codes_c = cfg_m
+        want = collections.Counter(tuple(d) for d in base_out if not (d[0] in covered and d[1] in codes_c))
+        got = collections.Counter(tuple(d) for d in r["out"])
+        hist["multi_" + desc.split()[0]] += 1
+        distinct.add(("multi", toml_m, tuple(sorted(modules_m))))
+        if want != got:
+            failing.append({"kind": "failing-input", "what": "multi-module run through the CLI path: disabling a code for some modules changed other diagnostics (" + desc + ")",
+                            "input": {"multi": {"names": names_m, "modules": modules_m, "config": list(cfg_m)}},
+                            "missing": sorted(map(list, (want - got).elements()), key=str), "unexpected": sorted(map(list, (got - want).elements()), key=str)})
+
     # 6. report
     failing = failing + [x for x in raw_dep if not failing][:3] if not failing else failing + raw_dep[:2]
     for f in failing[:10]:
@@ -941,6 +1042,7 @@ def run(tier: str, replay: str | None = None):
         samples=sample,
         traces_validated_against_impl=n_model - len(corr_mismatch),
         oracle_cases=n_oracle,
+        multi_module_runs=n_multi,
         raw_independence_checked=n_raw_hyp,
         raw_independence_failures=len(raw_dep),
         model_runs=n_model,
